@@ -506,6 +506,12 @@ def _check_prefix(db: DB, rep: Report, f, local: Optional[str], L: Optional[str]
         if not (isinstance(e, ast.Call) and isinstance(e.func, ast.Name) and e.func.id == "min" and e.args):
             return None
         g = e.args[0]
+        if isinstance(g, ast.Call) and norm(g.func) == "map" and len(g.args) == 2 and \
+                norm(g.args[0]) == "%s.index" % L and norm(g.args[1]) == S:
+            for kw in e.keywords:
+                if kw.arg == "default":
+                    return norm(kw.value)
+            return ""
         if not (isinstance(g, (ast.GeneratorExp, ast.ListComp)) and len(g.generators) == 1 and
                 norm(g.generators[0].iter) == S and not g.generators[0].ifs and
                 isinstance(g.generators[0].target, ast.Name) and
@@ -581,8 +587,13 @@ def _check_prefix(db: DB, rep: Report, f, local: Optional[str], L: Optional[str]
                           "the temporal prefix %s does not start at the outermost loop rank" % norm(v))
                 continue
             if sl.upper is not None and first_space_index(sl.upper):
-                rep.check("S7", s_true or not s_false, where, f.short, "prefix:before-first-space",
-                          "with spatial ranks the prefix stops before the first spatial rank", "")
+                rep.check("S7", False, where, f.short, "prefix:before-first-listed-space",
+                          "prefix stops at the first rank of the space list",
+                          "the temporal prefix stops at %s.index(%s[0]), the position of the first rank *listed* "
+                          "in the spacetime's space stamp; the space ranks need not be listed in loop order, so "
+                          "a spatial rank can be counted as temporal (Einsums with different temporal prefixes "
+                          "are fused, Einsums with equal ones split): take the earliest spatial rank in loop "
+                          "order" % (L, S))
                 continue
             # L[:(L.index(S[0]) if S else D)]: D must be the length of the loop order (or None)
             up = sl.upper
@@ -591,15 +602,15 @@ def _check_prefix(db: DB, rep: Report, f, local: Optional[str], L: Optional[str]
                     neg = isinstance(tst, ast.UnaryOp) and isinstance(tst.op, ast.Not)
                     cond = norm(tst.operand) if neg else norm(tst)
                     with_s, without_s = (b_, a_) if neg else (a_, b_)
-                    if cond == S and first_space_index(with_s):
+                    if cond == S and (first_space_index(with_s) or min_index(with_s) is not None):
                         dflt = norm(without_s)
-                        ok = dflt in ("len(%s)" % L, "None")
+                        ok = dflt in ("len(%s)" % L, "None") and not first_space_index(with_s)
                         rep.check("S7", ok, where, f.short, "prefix:cond-index(default=%s)" % dflt,
                                   "prefix stops before the first spatial rank, else at %s" % dflt,
                                   "for an Einsum without spatial ranks the temporal prefix becomes %s[:%s] "
                                   "instead of the whole loop order: purely temporal Einsums with different "
                                   "loop orders would compare equal and be fused" % (L, dflt),
-                                  decided=ok or isinstance(without_s, ast.Constant))
+                                  decided=ok or isinstance(without_s, ast.Constant) or first_space_index(with_s))
                         break
                 else:
                     raise AnalysisError("the derivation of the temporal prefix (%s at %s) has a form this "
@@ -615,15 +626,16 @@ def _check_prefix(db: DB, rep: Report, f, local: Optional[str], L: Optional[str]
                 rest_ = [v_ for st_, v_ in bdefs if not any(norm(a) == S for t_, pol_ in
                                                             paths.guards(st_, stop=fn)
                                                             for a, p in paths.conjuncts(t_, pol_))]
-                if len(with_s) == 1 and first_space_index(with_s[0]) and len(rest_) == 1:
+                if len(with_s) == 1 and (first_space_index(with_s[0]) or min_index(with_s[0]) is not None) \
+                        and len(rest_) == 1:
                     dflt = norm(rest_[0])
-                    ok = dflt in ("len(%s)" % L, "None")
+                    ok = dflt in ("len(%s)" % L, "None") and not first_space_index(with_s[0])
                     rep.check("S7", ok, where, f.short, "prefix:default-then-index(default=%s)" % dflt,
                               "prefix stops before the first spatial rank, else at %s" % dflt,
                               "for an Einsum without spatial ranks the temporal prefix becomes %s[:%s] "
                               "instead of the whole loop order: purely temporal Einsums with different "
                               "loop orders would compare equal and be fused" % (L, dflt),
-                              decided=ok or isinstance(rest_[0], ast.Constant))
+                              decided=ok or isinstance(rest_[0], ast.Constant) or first_space_index(with_s[0]))
                     continue
             mi = min_index(sl.upper) if sl.upper is not None else None
             if mi is not None:
@@ -648,7 +660,7 @@ def mutants(db: DB):
           "        blocks = TransUtils.build_expr(self.fusion.get_blocks())",
           "        blocks = TransUtils.build_expr(sorted(self.fusion.get_blocks()))", "S9"),
         M("no spatial ranks: empty prefix", "teaal/ir/fusion.py",
-          "        if space_ranks:\n            fused_ranks = loop_ranks[:loop_ranks.index(space_ranks[0])]\n        else:\n            fused_ranks = loop_ranks",
+          "        if space_ranks:\n            # Note: the space ranks need not be listed in loop order\n            first_space = min(loop_ranks.index(rank) for rank in space_ranks)\n            fused_ranks = loop_ranks[:first_space]\n        else:\n            fused_ranks = loop_ranks",
           "        fused_ranks = loop_ranks[:(loop_ranks.index(space_ranks[0]) if space_ranks else 0)]", "S7"),
         M("no component ever counts as used", "teaal/ir/fusion.py",
           "            if component.get_bindings()[einsum]:", "            if False:", "S6"),
@@ -678,19 +690,22 @@ def mutants(db: DB):
           "                pass\n", "S6"),
         M("components of another class", rel, "einsum, FunctionalComponent)", "einsum, MemoryComponent)", "S6"),
         M("prefix default 0 without spatial ranks", rel,
-          "        if space_ranks:\n            fused_ranks = loop_ranks[:loop_ranks.index(space_ranks[0])]\n        else:\n            fused_ranks = loop_ranks\n",
+          "        if space_ranks:\n            # Note: the space ranks need not be listed in loop order\n            first_space = min(loop_ranks.index(rank) for rank in space_ranks)\n            fused_ranks = loop_ranks[:first_space]\n        else:\n            fused_ranks = loop_ranks\n",
           "        fused_ranks = loop_ranks[:min((loop_ranks.index(r) for r in space_ranks), default=0)]\n", "S7"),
-        M("prefix skips the outermost rank", rel, "fused_ranks = loop_ranks[:loop_ranks.index(space_ranks[0])]",
-          "fused_ranks = loop_ranks[1:loop_ranks.index(space_ranks[0])]", "S7"),
+        M("prefix skips the outermost rank", rel, "fused_ranks = loop_ranks[:first_space]",
+          "fused_ranks = loop_ranks[1:first_space]", "S7"),
+        M("revert F8 fix (first *listed* space rank)", rel,
+          "            first_space = min(loop_ranks.index(rank) for rank in space_ranks)\n",
+          "            first_space = loop_ranks.index(space_ranks[0])\n", "S7"),
         M("whole loop order even with spatial ranks", rel,
-          "            fused_ranks = loop_ranks[:loop_ranks.index(space_ranks[0])]\n        else:\n            fused_ranks = loop_ranks",
+          "            fused_ranks = loop_ranks[:first_space]\n        else:\n            fused_ranks = loop_ranks",
           "            fused_ranks = loop_ranks\n        else:\n            fused_ranks = loop_ranks", "S7"),
         M("benign: min-index with default len", rel,
-          "        if space_ranks:\n            fused_ranks = loop_ranks[:loop_ranks.index(space_ranks[0])]\n        else:\n            fused_ranks = loop_ranks\n",
+          "        if space_ranks:\n            # Note: the space ranks need not be listed in loop order\n            first_space = min(loop_ranks.index(rank) for rank in space_ranks)\n            fused_ranks = loop_ranks[:first_space]\n        else:\n            fused_ranks = loop_ranks\n",
           "        fused_ranks = loop_ranks[:min((loop_ranks.index(r) for r in space_ranks), default=len(loop_ranks))]\n",
           (), benign=True),
-        M("prefix compared as a set", rel, "            fused_ranks = loop_ranks[:loop_ranks.index(space_ranks[0])]",
-          "            fused_ranks = set(loop_ranks[:loop_ranks.index(space_ranks[0])])", "S7"),
+        M("prefix compared as a set", rel, "            fused_ranks = loop_ranks[:first_space]",
+          "            fused_ranks = set(loop_ranks[:first_space])", "S7"),
         M("sequencers no longer functional components", "teaal/ir/component.py",
           "class SequencerComponent(FunctionalComponent):", "class SequencerComponent(Component):", "S8"),
         M("fusion filters on compute units only", rel, "einsum, FunctionalComponent)", "einsum, ComputeComponent)",
